@@ -2,7 +2,7 @@
    cross-check: one case (as written by the harness) and the implementation's
    observation in, the model's observation and the spec verdicts out. *)
 From Model Require Import Str Sexp Http Cors Template Table Curly DetectRoute Jsr311 Router Options.
-From Spec Require Import CorsSpec RouteSpec.
+From Spec Require Import CorsSpec RouteSpec RankSpec.
 
 Definition verdict (name : string) (b : bool) : sexp := Lst [A (L name); of_bool b].
 
@@ -280,10 +280,83 @@ Definition run_allow (c impl : sexp) : sexp :=
               verdict "kf:K-C17-2" (unclean && match t_router t with Curly => true | Jsr311 => false end);
               verdict "single_root_and_clean" (negb multi && negb unclean) ] ].
 
+(* ---- domain "twin" (C18): (oracles table request), impl = (obs under CurlyRouter, obs under RouterJSR311) ---- *)
+Definition class_of (x : routed) : string :=
+  match x with
+  | RInvoke _ _ _ => "invoked"
+  | RError E404 => "404" | RError (E405 _) => "405" | RError E415 => "415" | RError E406 => "406"
+  | RPanic => "panic"
+  end.
+
+Definition run_twin (c impl : sexp) : sexp :=
+  let O := sx_oracles (sx_nth 0 c) in
+  let t0 := sx_table (sx_nth 1 c) in
+  let tc := {| t_router := Curly; t_services := t_services t0 |} in
+  let tj := {| t_router := Jsr311; t_services := t_services t0 |} in
+  let req := sx_request (sx_nth 2 c) in
+  let xc := route_request O tc req in
+  let xj := route_request O tj req in
+  let frag := c18_fragment tc in
+  let clean := clean_path (rq_path req) in
+  let unamb := unambiguous O tc req in
+  Lst [ Lst [routed_obs tc xc; routed_obs tj xj];
+        Lst [ verdict "c18_routers_agree" (implb frag (sexp_eqb (sx_nth 0 impl) (sx_nth 1 impl))) ];
+        A (L (class_of xc));
+        Lst [ verdict "kf:K-C18-1" (negb unamb); verdict "kf:K-C18-2" (negb clean);
+              verdict "in_fragment" frag; verdict "hypotheses_of_C18_partial" (frag && clean && unamb) ] ].
+
+(* ---- domain "perm" (C03): (oracles table request perms), impl = (obs of the base order, obs per permutation) ---- *)
+Definition apply_perm (t : table) (p : sexp) : table :=
+  let so := map sx_nat (sx_list (sx_nth 0 p)) in
+  let ro := sx_list (sx_nth 1 p) in
+  {| t_router := t_router t;
+     t_services := flat_map (fun i =>
+        match nth_error (t_services t) i with
+        | Some w => [{| s_root := s_root w;
+                        s_routes := flat_map (fun j => match nth_error (s_routes w) j with Some r => [r] | None => [] end)
+                                             (map sx_nat (sx_list (nth i ro (Lst [])))) |}]
+        | None => []
+        end) so |}.
+
+Definition obs_core (x : sexp) : sexp := Lst (firstn 5 (sx_list x)).
+
+Definition run_perm (c impl : sexp) : sexp :=
+  let O := sx_oracles (sx_nth 0 c) in
+  let t := sx_table (sx_nth 1 c) in
+  let req := sx_request (sx_nth 2 c) in
+  let perms := sx_list (sx_nth 3 c) in
+  let tables := t :: map (apply_perm t) perms in
+  let xs := map (fun tb => route_request O tb req) tables in
+  let iobs := sx_list impl in
+  let scope := c03_in_scope t in
+  let same := match iobs with
+              | [] => true
+              | o0 :: rest => forallb (fun o => sexp_eqb (obs_core o) (obs_core o0)) rest
+              end in
+  let tie := match t_router t with Curly => score_tie O t (tokenize (rq_path req)) | Jsr311 => false end in
+  (* best match on every build of the implementation *)
+  let best_ok := forallb (fun ot =>
+      let o := fst ot in let tb := snd ot in
+      match map sx_int (sx_list (sx_nth 3 o)) with
+      | [id] => match find_route id (t_services tb) with
+                | Some (w, r) => implb (forallb (wf_route_for tb w) (s_routes w)) (best_match_ok O tb w r req)
+                | None => false
+                end
+      | _ => true
+      end) (combine iobs tables) in
+  Lst [ Lst (map (fun xt => routed_obs (snd xt) (fst xt)) (combine xs tables));
+        Lst [ verdict "c03_order_independent" (implb scope same);
+              verdict "c03_best_match" best_ok ];
+        A (L (match xs with x :: _ => class_of x | [] => "empty"%string end));
+        Lst [ verdict "kf:K-C03-1" tie; verdict "in_scope" scope;
+              verdict "permutations_built" (Nat.ltb 1 (List.length iobs)) ] ].
+
 Definition run_case (c impl : sexp) : sexp :=
   let dom := sx_str (sx_nth 0 c) in
   if str_eqb dom (L "cors") then run_cors (sx_nth 1 c) impl
   else if str_eqb dom (L "route") then run_route (sx_nth 1 c) impl
   else if str_eqb dom (L "slash") then run_slash (sx_nth 1 c) impl
   else if str_eqb dom (L "allow") then run_allow (sx_nth 1 c) impl
+  else if str_eqb dom (L "twin") then run_twin (sx_nth 1 c) impl
+  else if str_eqb dom (L "perm") then run_perm (sx_nth 1 c) impl
   else Lst [A (L "unknown-domain")].
